@@ -39,6 +39,7 @@ ObsOk(rw, o) ==
       [] o.k = "lookup"   -> LookupOk(rw, o.id, o.r)
       [] o.k = "get"      -> GetOk(rw, o.id, o.r)
       [] o.k = "iter"     -> o.rows = rw
+      [] o.k = "slicestep" -> o.rows = SliceStep(rw, o.a, o.b, o.st)                        \* g[a:b:st]
       [] o.k = "rev"      -> o.rows = Reverse(rw)                                   \* g[::-1]
       [] o.k = "step2"    -> o.rows = [i \in 1..((Len(rw) + 1) \div 2) |-> rw[2 * i - 1]]   \* g[::2]
       [] o.k = "index"    -> o.r = (IF o.row \in Range(rw) THEN <<"pos", FirstPos(rw, o.row) - 1>> ELSE <<"ValueError">>)
@@ -73,7 +74,7 @@ TNext ==
                                ELSE IF ~\E o \in outs : o.rows = ev.rows THEN "rows_not_allowed"
                                ELSE IF ~\E o \in outs : o.ver = ev.ver THEN "version_not_allowed"
                                ELSE "outcome_not_jointly_allowed"), 0>>)
-          /\ \A k \in {"len", "iter", "getitem", "slice", "contains", "lookup", "get", "repr", "rev", "step2", "index", "count"} :
+          /\ \A k \in {"len", "iter", "getitem", "slice", "contains", "lookup", "get", "repr", "rev", "step2", "index", "count", "slicestep"} :
                 LET B == {i \in 1..Len(ev.obs) : ev.obs[i].k = k /\ ~ObsOk(ev.rows, ev.obs[i])}
                 IN B # {} => PrintT(<<"REJECT", tid, l, "obs_" \o k, CHOOSE i \in B : \A j \in B : i <= j>>)
           /\ rows' = ev.rows /\ ver' = ev.ver
